@@ -151,7 +151,8 @@ TREnd ==
 \* a pending call of g could take a step of the specification now (so the real call should not be stuck)
 CanProgress(g) ==
   LET p == pend[g] e == TLog[p.line] IN
-  CASE p.st = "called" /\ e.op \in {"Put", "NewConsumer", "Size", "Slice", "BClose"} -> TRUE
+  CASE p.st = "called" /\ e.op \in {"Put", "NewConsumer", "Size", "Slice"} -> TRUE
+    [] p.st = "called" /\ e.op = "BClose" -> ~bonce \/ bdone
     [] p.st = "called" /\ e.op = "Get" -> p.pre \/ (cst[e.c] # "absent" /\ cmu[e.c] = NoG)
        \* (a Get queued on the consumer mutex behind another Get has already passed its context check: by design)
     [] p.st = "called" /\ e.op \in {"Commit", "Rollback", "Diff"} -> cst[e.c] # "absent" /\ cmu[e.c] = NoG
@@ -305,12 +306,17 @@ BRDiff0(g) ==
        ELSE BRFinish(g, "ok", <<>>)
   /\ UNCHANGED vars
 
-BRGetQuick(g) ==
+\* the context check at the top of Range's loop returns the context error without any rollback
+BRTopCancel(g) ==
   /\ pend[g].st = "called" /\ pend[g].pc = "get" /\ Cx(g) # "live"
+  /\ BRFinish(g, "canceled", pend[g].acc)
+  /\ UNCHANGED vars
+
+\* a Get that fails on its own context check (cancelled after Range's check) is rolled back by Range
+BRGetQuick(g) ==
+  /\ pend[g].st = "called" /\ pend[g].pc = "get" /\ Cx(g) = "now"
   /\ pend' = [pend EXCEPT ![g].pc = "rb", ![g].cont = TRUE]      \* cont = TRUE: the error is "canceled"
   /\ UNCHANGED vars
-\* (the context check at the top of Range's loop returns without a rollback; a Get that fails is rolled back;
-\*  both return the context error and a rollback with nothing pending changes nothing, so they share "rb")
 
 BRGetAcquire(g) ==
   /\ pend[g].st = "called" /\ pend[g].pc = "get"
@@ -352,7 +358,7 @@ LinAny(g) ==
   \/ LinCommit(g) \/ LinRollback(g) \/ LinSize(g) \/ LinSlice(g) \/ LinDiff(g)
   \/ LinCloseBegin(g) \/ LinCloseOk(g) \/ LinCloseAgain(g)
   \/ LinBCloseBegin(g) \/ LinBCloseOk(g) \/ LinBCloseAgain(g)
-  \/ BRDiff0(g) \/ BRGetQuick(g) \/ BRGetAcquire(g) \/ BRGetDone(g) \/ BRDiff(g) \/ BRCommit(g) \/ BRRollback(g)
+  \/ BRDiff0(g) \/ BRTopCancel(g) \/ BRGetQuick(g) \/ BRGetAcquire(g) \/ BRGetDone(g) \/ BRDiff(g) \/ BRCommit(g) \/ BRRollback(g)
 
 TSilent ==
   /\ SilentOK /\ Silent
@@ -364,8 +370,8 @@ TSilent ==
   /\ UNCHANGED <<cancelled, rs>>
 
 TVNext ==
-  \/ TReset \/ TCall \/ TRet \/ TCancel \/ TRBegin \/ TCb \/ TREnd \/ TQuiescent \/ TFinal
   \/ TSilent
+  \/ TReset \/ TCall \/ TRet \/ TCancel \/ TRBegin \/ TCb \/ TREnd \/ TQuiescent \/ TFinal
 
 TVSpec == TVInit /\ [][TVNext]_tvars
 
